@@ -402,6 +402,48 @@ def unit_foreign(ctx):
             ctx.note(f"foreign-labels:{lab}->{'kept-suffix' if g.vdims == comp[:nv] else g.vdims}")
 
 
+def unit_read_sequence(ctx):
+    """What a file is read to must not depend on the files read BEFORE it in the same process: a foreign OVF 1.0 file
+    (no component labels, one 'valueunit') is read, then a library-written OVF 2.0 file with custom labels and unit (1,
+    2, 3 or 4 components), then the first file again.  Both readings of the first file must agree in everything."""
+    rep = ctx.choose("representation", ["bin8", "bin4", "txt"])
+    style = ctx.choose("style", ["oommf", "mumax"])
+    nvA = ctx.choose("components-of-the-file-read-in-between", [3, 2, 1, 4])
+    repA = ctx.choose("its-representation", ["bin8", "txt"])
+    shape = (2, 1, 3)
+    p1, p2 = _corners("nano", shape)
+    data = _values("tracer", shape, 3, ctx.seed, 0)
+    with _Tmp() as d:
+        pathB = os.path.join(d, "foreign.omf")
+        R.write(pathB, version=1, representation=rep, pmin=p1, pmax=p2, n=shape, data=data, meshunit="m", labels=None,
+                units=["A/m"] * 3, style=style)
+        meshA = df.Mesh(p1=(0, 0, 0), p2=(4e-9, 2e-9, 2e-9), n=(2, 1, 2))
+        fA = df.Field(meshA, nvdim=nvA, value=C.tracer((2, 1, 2), nvA, ctx.seed), unit="T",
+                      vdims=["pa", "pb", "pc", "pd"][:nvA] if nvA > 1 else None)
+        pathA = os.path.join(d, "lib.ovf")
+        fA.to_file(pathA, representation=repA)
+        ctx.step(3, "from_file(foreign OVF 1.0); from_file(library OVF 2.0); from_file(foreign OVF 1.0) again")
+        raised, b1 = C.raises(df.Field.from_file, pathB)
+        if raised:
+            ctx.note("first-read-refused(unit foreign judges it)")
+            raise engine.Skip()
+        df.Field.from_file(pathA)
+        raised, b2 = C.raises(df.Field.from_file, pathB)
+        ctx.check(2)
+        inst = ctx.key()
+        if raised:
+            ctx.fail("from_file.ovf/read-sequence/second-read-of-the-same-file-raises",
+                     f"after a {nvA}-component OVF 2.0 file was read: {type(b2).__name__}: {str(b2)[:160]}", instance=inst)
+            return
+        ctx.observe(b2.vdims, b2.unit, b2.array)
+        same = (b1.vdims == b2.vdims and b1.unit == b2.unit and b1.nvdim == b2.nvdim and b1.mesh == b2.mesh
+                and tuple(b1.mesh.region.units) == tuple(b2.mesh.region.units) and C.same_bytes(b1.array, b2.array))
+        if not same:
+            ctx.fail("from_file.ovf/read-sequence/result-depends-on-files-read-before",
+                     f"first read: labels {b1.vdims} unit {b1.unit!r}; after a {nvA}-component file with labels "
+                     f"{fA.vdims} unit 'T' was read in between: labels {b2.vdims} unit {b2.unit!r}", instance=inst)
+
+
 # ---------------------------------------------------------------------------
 # fault enumeration
 
@@ -555,6 +597,7 @@ def units(tier):
         {"name": "roundtrip", "fn": unit_roundtrip, "bound": None},
         {"name": "chunks", "fn": unit_chunks, "bound": None},
         {"name": "foreign", "fn": unit_foreign, "bound": None},
+        {"name": "read_sequence", "fn": unit_read_sequence, "bound": None},
         {"name": "faults", "fn": unit_faults, "bound": None},
         {"name": "shortblock", "fn": unit_shortblock, "bound": None},
         {"name": "provenance", "fn": unit_provenance, "bound": None},
